@@ -60,6 +60,14 @@ def make_case(api, code, pos, layout="one"):
             ops.append(T("commit_offsets", [b"g", [T("co", [T1, 0, 1]), T("co", [T1, 1, 1]), T("co", [T1, 2, 1])]]))
         else:
             ops.append(T("fetch_group_offsets", [b"g", [T("fgo", [T1, 0]), T("fgo", [T1, 1]), T("fgo", [T1, 2])]]))
+    elif api in ("list_offsets_twice", "fetch_offsets_twice"):
+        # two calls on one client, the topic led by two brokers: the first is refused by one broker, the second by the other; each call
+        # reports ITS refusal (an answer left over from the first call must not be taken for the second call's)
+        name = "list_offsets" if api == "list_offsets_twice" else "offsets"
+        opn = "list_offsets" if api == "list_offsets_twice" else "fetch_offsets"
+        other = 1 if pos != 1 else 0          # a partition of the other broker in the spread layout (0, 2 on broker 1; 1 on broker 2)
+        ops.append({"op": T(opn, [[T1, b"t2"], T("earliest")]), "inject": [(name, T1, pos, code, 1)]})
+        ops.append({"op": T(opn, [[T1, b"t2"], T("latest")]), "inject": [(name, T1, other, code, 1)]})
     elif api == "coordinator":
         spec["coordinator_script"] = {b"g": [code] * 10}
         ops += [T("set_group_offset_storage", [1]), T("fetch_group_topic_offset", [b"g", T1])]
@@ -96,6 +104,12 @@ def gen(rng, tier):
                 else:
                     cases.append(make_case(api, code, pos, "one"))
                     cases.append(make_case(api, code, pos, "spread"))
+    for api in ("list_offsets_twice", "fetch_offsets_twice"):
+        for code in [1, 3, 6, 9, 36, -1, 257]:
+            for pos in (0, 1, 2):
+                if tier == "quick" and rng.random() < 0.4:
+                    continue
+                cases.append(make_case(api, code, pos, "spread"))
     for api in ("commit2", "group_fetch2"):
         for code in [c for c in ALL_CODES if c not in (0, 3, 14, 15, 16)]:
             if tier == "quick" and rng.random() < 0.5:
@@ -162,6 +176,13 @@ def oracle(case, recs, cl):
             expect(all(pc.args[1].name == "ok" for pc in pcs if pc.args[0] != pos) and len(pcs) == 3, "other confirms must be Ok")
     elif api == "commit":
         expect(res == T("err", [T("kafka", [exp])]), "commit must fail with kind %d" % exp)
+    elif api in ("list_offsets_twice", "fetch_offsets_twice"):
+        other = 1 if pos != 1 else 0
+        r1 = recs[-2]["impl"]
+        if not (r1.name == "err" and r1.args[0] == T("tperr", [T1, pos, exp])):
+            fails.append("C11 %s code=%d pos=%d: the first call must fail naming partition %d and kind %d; got %s" % (api, code, pos, pos, exp, dumps(r1)[:160]))
+        expect(res.name == "err" and res.args[0] == T("tperr", [T1, other, exp]),
+               "the second call must fail naming partition %d and kind %d (its own refusal, not what the first call left behind)" % (other, exp))
     elif api in ("commit2", "group_fetch2"):
         rp = (pos + 1 + (code % 2)) % 3
         if pos < rp:
